@@ -49,7 +49,9 @@ type Witness struct {
 
 // GetLatestCheckpoint returns a recent checkpoint from the witness for the specified log ID.
 func (w Witness) GetLatestCheckpoint(ctx context.Context, logID string) ([]byte, error) {
-	u, err := w.url.Parse(fmt.Sprintf(wit_api.HTTPGetCheckpoint, logID))
+	// The log ID is one path segment: escaped, so that an odd ID (".", "a/../b", ...) cannot be resolved to the path of
+	// another log's checkpoint.
+	u, err := w.url.Parse(fmt.Sprintf(wit_api.HTTPGetCheckpoint, url.PathEscape(logID)))
 	if err != nil {
 		return nil, fmt.Errorf("failed to parse URL: %v", err)
 	}
